@@ -1,11 +1,11 @@
 SPECIFICATION SpecAtomic
 CONSTANTS
   SlotsPerEpoch = 32
-  Slots = {31, 32}
+  Slots = {100}
   GivenEpochs = {3}
   MaxBatch = 1
   NReq = 1
-  ForkEpochs = {1}
+  ForkEpochs = {4}
   LawBatch = 1
   HistOps = {}
   HistKinds = {}
